@@ -54,4 +54,4 @@ def standins(tier, seed):
     return K.symcoef_jobs('C03', OPS + ['gp'], tier, seed, extra_configs=K.CUSTOM)
 
 
-replay = K.replay_operator
+replay = K.replay_any
